@@ -128,8 +128,10 @@ def run_cli(chk, model):
         def ab(p): return S + "/" + p
         cands = [ab("r1/x"), ab("r1/sub/y"), ab("r1/sub"), ab("r1x/z"), ab("r2/w"), ab("out/v"), "rel/q", "./rel/q",
                  ab("r1//x"), ab("r1/dir/"), ab("r1/dir"), ab("r2/sub/k"), ab("r1x"), "", ab("r1/sub/deep/z"), ab("r2"), ab("nonexistent"),
-                 ab("r1/lnk"), ab("r1/dangling"), ab("r1/flink"), ab("r2/rlnk"), ab("r1/lnk/")]
-        rootc = [ab("r1"), ab("r1/"), ab("r2//"), ab("r1/sub"), "rel", ab("r1/sub/"), ab("r"), ab("r2")]
+                 ab("r1/lnk"), ab("r1/dangling"), ab("r1/flink"), ab("r2/rlnk"), ab("r1/lnk/"),
+                 # a doubled LEADING separator is still an absolute path (POSIX: "//x" names the same object as "/x" here)
+                 "/" + ab("r2/w"), "/" + ab("r1/sub/deep/z"), "//" + ab("out/v")]
+        rootc = [ab("r1"), ab("r1/"), ab("r2//"), ab("r1/sub"), "rel", ab("r1/sub/"), ab("r"), ab("r2"), "/" + ab("r2"), "/" + ab("r1") + "/"]
         runs = []
         for i in range(rng.randint(2, 5)):
             e = rng.sample(cands, rng.randint(0, 7))
@@ -173,7 +175,10 @@ def run_cli(chk, model):
             # component-prefix of it (remove() is recursive); relative strings resolve against S
             dels = pred[i]
             def resolve(d):
-                return os.path.normpath(d if d.startswith("/") else os.path.join(S, d)) if d != "" else None
+                if d == "":
+                    return None
+                r = os.path.normpath(d if d.startswith("/") else os.path.join(S, d))
+                return "/" + r.lstrip("/")          # normpath keeps exactly two leading slashes; here "//x" and "/x" name the same object
             exp = []
             for f in universe:
                 full = os.path.normpath(os.path.join(S, f))
